@@ -194,6 +194,12 @@ pub fn independent_link_poses(spec: &crate::cell::CellSpec, q: &[f64; 6]) -> [Is
     use nalgebra::{Translation3, UnitQuaternion, Vector3};
     let p = &spec.params;
     let (a1, a2, b, c1, c2, c3, c4) = (p[0], p[1], p[2], p[3], p[4], p[5], p[6]);
+    // a parallelogram linkage (if any) acts on the user-facing joint values first: the coupled
+    // joint is reduced by scaling times the driven one
+    let mut q = *q;
+    if let Some((scaling, driven, coupled)) = spec.parallelogram {
+        q[coupled] -= scaling * q[driven];
+    }
     let th: [f64; 6] = std::array::from_fn(|i| q[i] * spec.signs[i] as f64 - spec.offsets[i]);
     let rz = |a: f64| UnitQuaternion::from_axis_angle(&Vector3::z_axis(), a);
     let ry = |a: f64| UnitQuaternion::from_axis_angle(&Vector3::y_axis(), a);
